@@ -40,6 +40,16 @@ def build(prop, tier, seed, pmod, ded, nat, extra, reg, n_obl, n_dis, vc_time, b
         'bounded_back_end_evaluations': nat.get(r['name'], {}).get('evaluations', 0),
         'not_generated': r.get('error') if r['status'] != 'ok' else None,
     })
+  ded_names = {r['name'] for r in ded}
+  for m in mine:
+    if m['name'] not in ded_names:
+      n = nat.get(m['name'], {})
+      units.append({'unit': m['name'], 'file': m['file'], 'status': 'bounded-only',
+                    'obligations': 0, 'discharged': 0,
+                    'bounded_back_end_evaluations': n.get('evaluations', 0),
+                    'contract': {'requires': m.get('requires', []), 'ensures': m.get('ensures', []),
+                                 'raises': m.get('raises', {})},
+                    'note': 'bounded stand-in: contract executed natively on the real function; not proved'})
   trusted = list(GENERIC_ASSUMPTIONS)
   for u in ext:
     if any(p in u.get('props', []) for p in [prop]) or any(
